@@ -48,7 +48,7 @@ template<unsigned N> static void shape_inverse (const char* tag, int pattern)
   Matrix<N,N,double> ai = inv (a), l = ai * a, r = a * ai;
   for (unsigned i=0; i<N; i++) for (unsigned j=0; j<N; j++) { snprintf (what, 200, "%s %ux%u pattern %d: inv(A) A = 1 [%u][%u]", tag, N, N, pattern, i, j); expect (what, l[i][j], i == j ? 1.0 : 0.0, 1e-9);
     snprintf (what, 200, "%s %ux%u pattern %d: A inv(A) = 1 [%u][%u]", tag, N, N, pattern, i, j); expect (what, r[i][j], i == j ? 1.0 : 0.0, 1e-9); }
-  for (int e : { -300, -100, 100, 300 }) { double sc = std::ldexp (1.0, e), si = std::ldexp (1.0, -e); Matrix<N,N,double> as = a; as *= sc; Matrix<N,N,double> ais = inv (as);
+  for (int e : { -900, -700, -560, -300, -100, 100, 300, 560, 700, 900 }) { double sc = std::ldexp (1.0, e), si = std::ldexp (1.0, -e); Matrix<N,N,double> as = a; as *= sc; Matrix<N,N,double> ais = inv (as);
     snprintf (what, 200, "%s %ux%u pattern %d: the inverse of A scaled by 2^%d is inv(A) scaled by 2^%d, exactly", tag, N, N, pattern, e, -e);
     bool ok = true; for (unsigned i=0; i<N; i++) for (unsigned j=0; j<N; j++) ok = ok && ais[i][j] == ai[i][j] * si; expect_true (what, ok); }
 }
@@ -148,6 +148,13 @@ int main (int argc, char** argv)
     shape_product<2,3,2> ("small"); shape_product<4,5,6> ("rect"); shape_product<6,6,6> ("6x6"); shape_product<1,6,1> ("row-col"); shape_product<6,1,6> ("col-row"); shape_product<5,2,5> ("thin"); shape_product<3,6,4> ("wide");
     for (int pat=0; pat<4; pat++) { shape_inverse<2> ("inverse", pat); shape_inverse<3> ("inverse", pat); shape_inverse<4> ("inverse", pat); shape_inverse<5> ("inverse", pat); shape_inverse<6> ("inverse", pat); }
     shape_direct<2,3,3,2> ("kron"); shape_direct<3,2,2,3> ("kron"); shape_direct<1,6,6,1> ("kron"); shape_direct<2,2,3,3> ("kron");
+    { // single precision and complex elements at small and large magnitudes
+      for (float sc : { 1e-25f, 1e-15f, 1.0f, 1e15f }) { Matrix<2,2,float> a; a[0][0] = sc; a[0][1] = sc; a[1][0] = sc; a[1][1] = 0; Matrix<2,2,float> ai = inv (a), p = ai * a; char what[160];
+        snprintf (what, 160, "single precision [[s,s],[s,0]] with s = %g: inv(A) A = 1", double (sc)); for (unsigned i=0; i<2; i++) for (unsigned j=0; j<2; j++) expect_true (what, std::fabs (p[i][j] - (i == j ? 1.0f : 0.0f)) <= 1e-5f); }
+      for (double sc : { 1e-170, 1e-100, 1.0, 1e100, 1e150 }) { Matrix<2,2,cd> a; a[0][0] = cd (sc, sc); a[0][1] = cd (0, sc); a[1][0] = cd (sc, 0); a[1][1] = cd (0, 0); Matrix<2,2,cd> ai = inv (a), p = ai * a; char what[160];
+        snprintf (what, 160, "complex [[s+is, is],[s,0]] with s = %g: inv(A) A = 1", sc); for (unsigned i=0; i<2; i++) for (unsigned j=0; j<2; j++) expect_true (what, std::abs (p[i][j] - (i == j ? cd (1.0) : cd (0.0))) <= 1e-12); }
+      Matrix<3,3,double> b; b[0][0] = 1; b[1][1] = std::ldexp (1.0, -560); b[1][2] = std::ldexp (1.0, -560); b[2][1] = std::ldexp (1.0, -560); b[2][2] = 0;   // diag (1, tiny block)
+      Matrix<3,3,double> bi = inv (b), q = bi * b; for (unsigned i=0; i<3; i++) for (unsigned j=0; j<3; j++) expect ("diag (1, tiny 2x2 block): inv(A) A = 1", q[i][j], i == j ? 1.0 : 0.0, 1e-12); }
     Matrix<6,6,double> m = rmat<6,6> (); double tr = 0; for (unsigned i=0; i<6; i++) tr += m[i][i]; expect ("trace of a 6x6 matrix", trace (m), tr, 1e-12);
     Vector<6,double> a, b; for (unsigned i=0; i<6; i++) { a[i] = rnd13 (); b[i] = rnd13 (); } Matrix<6,6,double> o = outer (a, b); double dt = 0;
     for (unsigned i=0; i<6; i++) { dt += a[i] * b[i]; for (unsigned j=0; j<6; j++) expect ("outer product of 6-vectors", o[i][j], a[i] * b[j], 1e-12); }
